@@ -4,22 +4,34 @@
 # then runs the check. Exit 0 held / 1 violation / 2 harness or build trouble.
 set -u
 ROOT="$(cd "$(dirname "$0")" && pwd)"
-export VERIF_DIR="$ROOT"
+# VERIF_DIR: where evidence/, replays/ and known_findings.json live (default: next to this script).
+export VERIF_DIR="${VERIF_OUT:-$ROOT}"
+# VERIF_REPO: tree of gmrtd to build against (default /repo, via the replace directive in sim/go.mod).
+# Only used for trials against scratch worktrees; registered commands always build /repo itself.
+REPO="${VERIF_REPO:-/repo}"
 cd "$ROOT/sim" || exit 2
 export GOFLAGS=-mod=mod GOPROXY=off GOSUMDB=off GOTOOLCHAIN=local
 GO=go1.26.8
 command -v $GO >/dev/null 2>&1 || GO=/opt/veriftools/go1.26.8/bin/go
-mkdir -p $ROOT/.build
+BUILD="$ROOT/.build"
+MODFLAG=""
+if [ "$REPO" != "/repo" ]; then
+  BUILD="$BUILD/alt-$(echo "$REPO" | tr -c 'A-Za-z0-9' '_')"
+  mkdir -p "$BUILD"
+  sed "s|=> /repo|=> $REPO|" go.mod > "$BUILD/go.mod"; cp go.sum "$BUILD/go.sum"
+  MODFLAG="-modfile=$BUILD/go.mod"
+fi
+mkdir -p "$BUILD"
 build() {
-  local out=$ROOT/.build/sim
-  if ! $GO build -o "$out" ./cmd/sim 2>$ROOT/.build/build.log; then
-    echo "BUILD-FAILED (see $ROOT/.build/build.log)"; tail -n 30 $ROOT/.build/build.log; return 2
+  local out=$BUILD/sim
+  if ! $GO build $MODFLAG -o "$out" ./cmd/sim 2>$BUILD/build.log; then
+    echo "BUILD-FAILED (see $BUILD/build.log)"; tail -n 30 $BUILD/build.log; return 2
   fi
 }
 build_race() {
-  local out=$ROOT/.build/sim-race
-  if ! $GO build -race -o "$out" ./cmd/sim 2>$ROOT/.build/build-race.log; then
-    echo "BUILD-FAILED (see $ROOT/.build/build-race.log)"; tail -n 30 $ROOT/.build/build-race.log; return 2
+  local out=$BUILD/sim-race
+  if ! $GO build $MODFLAG -race -o "$out" ./cmd/sim 2>$BUILD/build-race.log; then
+    echo "BUILD-FAILED (see $BUILD/build-race.log)"; tail -n 30 $BUILD/build-race.log; return 2
   fi
 }
 needs_race() {
@@ -30,14 +42,14 @@ needs_race() {
 case "${1:-}" in
   build) build && build_race; exit $? ;;
   replay)
-    if needs_race "$2"; then build_race || exit 2; export GORACE="halt_on_error=0 exitcode=0"; exec $ROOT/.build/sim-race replay "$2"; fi
-    build || exit 2; exec $ROOT/.build/sim replay "$2" ;;
+    if needs_race "$2"; then build_race || exit 2; export GORACE="halt_on_error=0 exitcode=0"; exec $BUILD/sim-race replay "$2"; fi
+    build || exit 2; exec $BUILD/sim replay "$2" ;;
   "") echo "usage: run.sh <property> <quick|thorough>"; exit 2 ;;
 esac
 if needs_race "$1"; then
   build_race || exit 2
   export GORACE="halt_on_error=0 exitcode=0"
-  exec $ROOT/.build/sim-race check "$1" "${2:-quick}"
+  exec $BUILD/sim-race check "$1" "${2:-quick}"
 fi
 build || exit 2
-exec $ROOT/.build/sim check "$1" "${2:-quick}"
+exec $BUILD/sim check "$1" "${2:-quick}"
